@@ -58,6 +58,7 @@ class Line:
 
 @dataclass
 class FnInfo:
+    unverified: Optional[str] = field(default=None, kw_only=True)   # reason, if the body could not be put under contract on this tree
     key: str
     tags: Tuple[str, ...]
     repo_file: str
@@ -417,6 +418,26 @@ class Splicer:
             self.lines.append(Line(ln, src=(sf.path, line0 + k), kind="real"))
 
     def do_fn(self, key: str, kv, sections, tmpl_file, tmpl_line, decl_only=False):
+        """Splice one function.  If its annotations cannot be placed any more (lost anchor, vanished loop / closure / local), the
+        function is still emitted, with its contract but as `#[verifier::external_body]` (body verbatim, not verified), so that the
+        rest of the file - and every property that does not depend on this function - can still be decided; the function is marked
+        `unverified` and every property it is tagged with becomes undecided (exit 2)."""
+        n_lines, n_log = len(self.lines), len(self.log)
+        gkey = kv.get("as", key)
+        try:
+            return self._do_fn(key, kv, sections, tmpl_file, tmpl_line, decl_only=decl_only)
+        except SpliceError as e:
+            if decl_only or "spliced twice" in str(e) or "not found in /repo" in str(e) or "is not a fn" in str(e):
+                raise
+            del self.lines[n_lines:]
+            self.fns.pop(gkey, None)
+            try:
+                self._do_fn(key, kv, [x for x in sections if x[0] == "spec"], tmpl_file, tmpl_line, decl_only=False, external=str(e))
+            except SpliceError:
+                raise e
+            self.log.append("%s: NOT VERIFIED on this tree (emitted as external_body with its contract): %s" % (key, e))
+
+    def _do_fn(self, key: str, kv, sections, tmpl_file, tmpl_line, decl_only=False, external=None):
         sf, it, parent = self.lookup(key)
         if it.kind != "fn":
             raise SpliceError("%s is not a fn" % key)
@@ -764,7 +785,9 @@ class Splicer:
             if name == "all":
                 ghost_check(slines, "all")
                 all_sections[int(args.strip())] = (slines, sline_no)
-        for (s, e, rep, rule) in mechanical_rewrites(text, toks, kv.get("r12", self.defaults.get("r12"))):
+        if external:
+            info.unverified = external
+        for (s, e, rep, rule) in ([] if external else mechanical_rewrites(text, toks, kv.get("r12", self.defaults.get("r12")))):
             meta = {}
             if rule == "R11c":
                 m = re.search(r"/\*@ALL(\d+)@\*/", rep)
@@ -826,6 +849,8 @@ class Splicer:
         if "".join(rebuilt) != text:
             raise SpliceError("round trip failed for %s" % key)
         # ---- emit with source map
+        if external:
+            self.lines.append(Line("#[verifier::external_body]", fn=gkey, tmpl=(tmpl_file, tmpl_line), kind="ghost"))
         info.gen_line_start = len(self.lines) + 1
         pieces = []      # (fragment without newline, meta) ; None = newline
         for (ctext, kind, meta, off) in chunks:
